@@ -121,7 +121,7 @@ def plans(ctx):
         dict(kinds=[(P, P), ("pec", "pml"), (P, P)], nonuni=True),
         dict(kinds=[(P, "pec"), ("pml", P), (P, P)]),                                  # mixed faces: the axis wraps on both sides
         dict(kinds=[("pml", "pml"), (P, P), ("pec", "pec")], sym=(-1, 0, 0)),
-        dict(kinds=[(P, P), ("pml", "pml"), (P, P)], sym=(-1, -1, 1), nonuni=True),  # symmetric periodic axes: min halo zeroed / mirrored
+        dict(kinds=[(P, P), ("pml", "pml"), (P, P)], sym=(1, -1, -1), nonuni=True),  # symmetric periodic axes: min halo zeroed (x; z-min is never read)
         dict(kinds=[("bloch", "bloch"), ("pml", "pec"), ("bloch", "bloch")], cplx=True, kvec=[K1, 0.0, 1.5 * K1]),
         dict(kinds=[("bloch", "bloch"), (P, P), ("pml", "pml")], sym=(0, -1, -1), cplx=True, kvec=[K1, 0.0, 0.0], nonuni=True),
         dict(kinds=[("pml", "pml"), (P, P), ("pec", "pmc")], mode="forward", rshape=[3, 3, 3]),
@@ -131,6 +131,7 @@ def plans(ctx):
         dict(kinds=[("pml", "pml"), ("pml", "pml"), ("pml", "pml")], rich=True, nonuni=True),
         dict(kinds=[("pml", "pml"), ("pml", "pml"), ("pml", "pml")], sym=(-1, -1, -1), rich=True),
         dict(kinds=[("pml", "pec"), ("pml", "pml"), (P, P)], sym=(1, -1, 0)),
+        dict(kinds=[(P, P), (P, P), ("pml", "pml")], sym=(-1, 1, 0)),
         dict(kinds=[(P, P), ("bloch", "bloch"), ("bloch", "bloch")], sym=(1, 0, -1), cplx=True, kvec=[0.0, K1, K1]),
         dict(kinds=[("bloch", "pec"), ("pml", "bloch"), (P, P)], cplx=True, kvec=[K1, K1, 0.0], nonuni=True),
         dict(kinds=[("pml", "pml"), ("pml", "pml"), ("pml", "pml")], sym=(-1, 0, 0), rshape=[2, 3, 3]),
